@@ -56,12 +56,21 @@ class Impl:
         from cherab.tools.raytransfer import emitters
         self.Point3D, self.AffineMatrix3D, self.Spectrum, self.em = Point3D, AffineMatrix3D, Spectrum, emitters
 
-    def material(self, g, vm=None, mask=None):
+    def material(self, g, vm=None, mask=None, np_args=False):
+        """vm / mask: flat lists (converted to the canonical int32 / bool C arrays) or ready numpy arrays of any accepted
+        dtype / layout; np_args: grid_shape as numpy integers, grid_steps as numpy float64 scalars"""
         shape = tuple(g["shape"])
-        if vm is not None:
+        if vm is not None and not isinstance(vm, np.ndarray):
             vm = np.array(vm, dtype=np.int32).reshape(shape)
-        if mask is not None:
+        if mask is not None and not isinstance(mask, np.ndarray):
             mask = np.array(mask, dtype=bool).reshape(shape)
+        if np_args:
+            shape = tuple(np.int64(v) for v in shape)
+            g = dict(g)
+            if g["kind"] == "cart":
+                g["steps"] = [np.float64(v) for v in g["steps"]]
+            else:
+                g["dr"], g["dz"] = np.float64(g["dr"]), np.float64(g["dz"])
         if g["kind"] == "cart":
             return self.em.CartesianRayTransferEmitter(shape, tuple(g["steps"]), voxel_map=vm, mask=mask)
         return self.em.CylindricalRayTransferEmitter(shape, (g["dr"], float(g["dphi"]), g["dz"]), voxel_map=vm,
@@ -78,16 +87,34 @@ class Impl:
         A = self.affine(m12)
         return self.Point3D(*p0).transform(A).vector_to(self.Point3D(*p1).transform(A)).length
 
-    def call(self, kind, material, step, min_samples, m12, p0, p1, init):
-        """one call of <Integrator>.integrate; returns (samples afterwards, err) with err 0 | 1 (IndexError)"""
+    def integrator(self, kind, step, min_samples):
         cls = self.em.CartesianRayTransferIntegrator if kind == "cart" else self.em.CylindricalRayTransferIntegrator
-        integ = cls(step, min_samples)
-        sp = self.Spectrum(500., 501., len(init))
-        sp.samples[:] = init
+        return cls(step, min_samples)
+
+    def call(self, kind, material, step, min_samples, m12, p0, p1, init, integ=None, sp=None):
+        """one call of <Integrator>.integrate; returns (samples afterwards, err) with err 0 | 1 (IndexError).
+        integ / sp: a live integrator / Spectrum object to re-use (histories); otherwise fresh ones."""
+        if integ is None:
+            integ = self.integrator(kind, step, min_samples)
+        if sp is None:
+            sp = self.Spectrum(500., 501., len(init))
+            sp.samples[:] = init
         A = self.affine(m12)
         err = 0
         try:
             integ.integrate(sp, None, None, None, material, self.Point3D(*p0), self.Point3D(*p1), A, A)
+        except IndexError:
+            err = 1
+        return [float(v) for v in sp.samples], err
+
+    def emission(self, material, p, init):
+        from raysect.optical import Vector3D
+        sp = self.Spectrum(500., 501., len(init))
+        sp.samples[:] = init
+        A = self.AffineMatrix3D()
+        err = 0
+        try:
+            material.emission_function(self.Point3D(*p), Vector3D(0, 0, 1), sp, None, None, None, A, A)
         except IndexError:
             err = 1
         return [float(v) for v in sp.samples], err
@@ -99,7 +126,25 @@ class Impl:
 SIZES = [0.25, 0.5, 1.0, 0.75, 1.5, 0.375, 0.125]
 
 
-def gen_grid(rng, kind, exact, big):
+def gen_grid(rng, kind, exact, big, max_k=24):
+    g = _gen_grid(rng, kind, exact, big)
+    # scale covariance: dyadic grids are also generated at sizes 2^k, k in [-24, 24] (all lengths scale with the grid);
+    # scenes traced by raysect: k in [-8, 8] (raysect's fixed intersection tolerances lose accuracy below ~1e-6 m and its
+    # CSG tracer crashes above ~1e7 m with any material - not cherab code)
+    k = rng.randint(-max_k, max_k) if (exact and rng.random() < 0.3) else 0
+    g["scale"] = 2.0 ** k
+    if k:
+        f = g["scale"]
+        if kind == "cart":
+            g["steps"] = [v * f for v in g["steps"]]
+            g["ext"] = [v * f for v in g["ext"]]
+        else:
+            for key in ("dr", "dz", "rmin", "rmax", "zmax"):
+                g[key] *= f
+    return g
+
+
+def _gen_grid(rng, kind, exact, big):
     hi = 6 if big else 4
     if kind == "cart":
         while True:
@@ -144,19 +189,20 @@ def gen_map(rng, ncells):
     return "blocks", vm, None
 
 
-def gen_transform(rng, kind):
+def gen_transform(rng, kind, scale=1.0):
     """returns (name, world_to_primitive 4x4 raysect matrix)"""
     from raysect.optical import translate, rotate_x, rotate_y, rotate_z, AffineMatrix3D
     if kind == "identity":
         return AffineMatrix3D()
     if kind == "translate":
-        return translate(dyadic(rng, -4, 4, 3), dyadic(rng, -4, 4, 3), dyadic(rng, -4, 4, 3))
+        return translate(dyadic(rng, -4, 4, 3) * scale, dyadic(rng, -4, 4, 3) * scale, dyadic(rng, -4, 4, 3) * scale)
     return (rotate_z(rng.uniform(-180, 180)) * rotate_x(rng.uniform(-90, 90)) * rotate_y(rng.uniform(-90, 90))
-            * translate(rng.uniform(-3, 3), rng.uniform(-3, 3), rng.uniform(-3, 3)))
+            * translate(rng.uniform(-3, 3) * scale, rng.uniform(-3, 3) * scale, rng.uniform(-3, 3) * scale))
 
 
 def coord(rng, lo, hi, exact):
-    return dyadic(rng, lo, hi, 10) if exact else rng.uniform(lo, hi)
+    # relative to the interval, so that grids of any scale get few-bit coordinates
+    return lo + (hi - lo) * dyadic(rng, 0, 1, 10) if exact else rng.uniform(lo, hi)
 
 
 def gen_ray_cart(rng, g, exact):
@@ -229,7 +275,8 @@ def gen_ray_cyl(rng, g, exact):
         ph = rng.uniform(-math.pi, math.pi)
         x, y = rr * math.cos(ph), rr * math.sin(ph)
         if exact:
-            x, y = round(x * 1024) / 1024, round(y * 1024) / 1024
+            sc = g.get("scale", 1.0)
+            x, y = round(x / sc * 1024) / 1024 * sc, round(y / sc * 1024) / 1024 * sc
             if not (rmin * rmin < x * x + y * y < rmax * rmax):
                 return annulus_point()
         return [x, y, zin()]
@@ -254,7 +301,7 @@ def gen_ray_cyl(rng, g, exact):
             p = [[rr, 0.0], [0.0, rr], [-rr, 0.0], [0.0, -rr]][rng.randrange(4)] + [0.0]
             name = "z-parallel/on-axis-plane"
         else:            # on a diagonal sector boundary (45 degrees)
-            v = coord(rng, rmin / 1.4 + 0.05, rmax / 1.5, True)
+            v = coord(rng, rmin / 1.4 + 0.05 * dr, rmax / 1.5, True)
             p = [v * rng.choice([-1, 1]), v * rng.choice([-1, 1]), 0.0]
             name = "z-parallel/on-diagonal"
         if not (rmin * rmin <= p[0] ** 2 + p[1] ** 2 < rmax * rmax):
@@ -268,7 +315,8 @@ def gen_ray_cyl(rng, g, exact):
         if R <= 0:
             R = rmin + dr / 2
         a = math.sqrt(max(rmax * rmax - R * R, 0.0)) * rng.uniform(0.3, 0.98)
-        a = round(a * 1024) / 1024
+        sc = g.get("scale", 1.0)
+        a = round(a / sc * 1024) / 1024 * sc
         p0, p1 = [R, -a, zin()], [R, a, zin()]
         if rng.random() < 0.5:   # rotate the tangent line by a quarter turn
             p0, p1 = [-p0[1], p0[0], p0[2]], [-p1[1], p1[0], p1[2]]
@@ -311,7 +359,7 @@ def make_case(rng, impl, g, material, nmax, exact):
         nd = math.sqrt(sum(v * v for v in d))
         p1 = [p0[i] + d[i] / nd * f * step for i in range(3)]
     tk = rng.choice(["identity", "translate"]) if designed else rng.choice(["identity", "translate", "general", "general"])
-    Mw2p = gen_transform(rng, tk)
+    Mw2p = gen_transform(rng, tk, g.get("scale", 1.0))
     if tk == "identity":
         w0, w1 = p0, p1
     else:
@@ -322,22 +370,248 @@ def make_case(rng, impl, g, material, nmax, exact):
     length = impl.length(m12, w0, w1)
     if length <= 0.0:
         return None
-    n_est = length / step
-    if n_est > nmax:
+    if length / step > nmax:
         step = length / rng.uniform(0.3 * nmax, nmax)
+    return finish_case(rng, impl, g, material, cls, tk, m12, w0, w1, step, min_samples)
+
+
+def finish_case(rng, impl, g, material, cls, tk, m12, w0, w1, step, min_samples, boundary=False, integ=None, sp=None):
+    """runs the implementation on one call and returns the case dict; None when <int>(length/step) or the too-short test
+    would be decided by rounding (boundary=True: the caller built an exact boundary value on purpose; such a case is
+    marked coq_skip when the exact-arithmetic model cannot decide it and then goes to the search only)"""
+    kind = g["kind"]
+    length = impl.length(m12, w0, w1)
+    if length <= 0.0:
+        return None
     q = Fraction(length) / Fraction(step)
     fr = q - (q.numerator // q.denominator)
+    coq_skip = False
     if fr != 0 and (fr < Fraction(1, 10 ** 6) or fr > 1 - Fraction(1, 10 ** 6)):
-        return None      # <int>(length/step) would be decided by rounding
+        if not boundary:
+            return None      # <int>(length/step) would be decided by rounding
+        coq_skip = True
     if abs(length - 0.1 * step) < 1e-9 * step:
-        return None
+        # exact only when 0.1 * step is an exact product (step a power of two)
+        m, _ = math.frexp(step)
+        if not (boundary and m == 0.5):
+            return None
     bins = material.bins
-    init = [0.0] * bins if rng.random() < 0.5 else [dyadic(rng, 0, 4, 6) for _ in range(bins)]
-    out, err = impl.call(kind, material, step, min_samples, m12, w0, w1, init)
+    if sp is not None:
+        init = [float(v) for v in sp.samples]
+    else:
+        init = [0.0] * bins if rng.random() < 0.5 else [dyadic(rng, 0, 4, 6) for _ in range(bins)]
+    out, err = impl.call(kind, material, step, min_samples, m12, w0, w1, init, integ=integ, sp=sp)
     return {"kind": kind, "class": cls, "transform": tk, "step": step, "min_samples": min_samples, "m12": m12,
             "p0": [float(v) for v in w0], "p1": [float(v) for v in w1], "length": length,
             "start_local": list(impl.local(m12, w0)), "end_local": list(impl.local(m12, w1)), "init": init, "out": out,
-            "err": err, "n": max(min_samples, int(length / step)), "short": length < 0.1 * step}
+            "err": err, "n": max(min_samples, int(length / step)), "short": length < 0.1 * step, "coq_skip": coq_skip}
+
+
+IDENT12 = [1.0, 0.0, 0.0, 0.0, 0.0, 1.0, 0.0, 0.0, 0.0, 0.0, 1.0, 0.0]
+
+
+def boundary_cases(rng, impl, g, material, nmax, exact):
+    """exact boundary values of the two comparisons of integrate(): length against 0.1*step (below / equal / above by one
+    ulp) and length/step against an integer (k*step exactly, one ulp either side); the path starts at coordinate 0.0 or -0.0"""
+    kind = g["kind"]
+    cellmin = min(g["steps"]) if kind == "cart" else min(g["dr"], g["dz"])
+    step = 2.0 ** math.floor(math.log2(cellmin * rng.choice([0.5, 0.25, 0.125])))
+    zero = rng.choice([0.0, -0.0])
+    if kind == "cart":
+        ax = rng.randrange(3)
+        base = [coord(rng, 0.0, g["ext"][a] * (1 - 2 ** -9), exact) for a in range(3)]
+        span = g["ext"][ax]
+    else:
+        ax = 2
+        rr = g["rmin"] + g["dr"] * (rng.randrange(g["shape"][0]) + 0.5)
+        base = [[rr, 0.0], [0.0, rr], [-rr, 0.0], [0.0, -rr]][rng.randrange(4)] + [0.0]
+        span = g["zmax"]
+    base[ax] = zero
+    out = []
+    L0 = 0.1 * step
+    kmax = int(span * 0.98 / step)
+    lens = [("short-boundary/below", math.nextafter(L0, 0.0)), ("short-boundary/equal", L0),
+            ("short-boundary/above", math.nextafter(L0, 1e300))]
+    if kmax >= 1:
+        k = rng.randint(1, min(kmax, nmax))
+        lens += [("n-boundary/exact", k * step), ("n-boundary/below", math.nextafter(k * step, 0.0)),
+                 ("n-boundary/above", math.nextafter(k * step, 1e300))]
+    for name, L in lens:
+        p1 = list(base)
+        p1[ax] = L
+        c = finish_case(rng, impl, g, material, name, "identity", IDENT12, base, p1, step, rng.choice([2, 2, 3, 7]), boundary=True)
+        if c is not None:
+            out.append(c)
+    return out
+
+
+# ---------------------------------------------------------------------------------------------
+# unusual but valid argument forms of masks / voxel maps
+# ---------------------------------------------------------------------------------------------
+def variant_form(rng, arr, what):
+    """the same mask / voxel map in another dtype / memory layout; returns (array, name)"""
+    arr = np.asarray(arr)
+    dt = rng.choice([np.int32, np.int64, np.int8, np.float64] if what == "voxel_map" else [bool, np.int64, np.float64, np.uint8])
+    if dt == np.int8 and arr.max() > 100:
+        dt = np.int64
+    a = arr.astype(dt)
+    lay = rng.choice(["C", "noncontiguous", "readonly"] + (["F"] if what == "mask" else []))
+    if lay == "noncontiguous":
+        a = np.repeat(a, 2, axis=2)[:, :, ::2]
+    elif lay == "F":
+        a = np.asfortranarray(a)
+    elif lay == "readonly":
+        a = a.copy()
+        a.setflags(write=False)
+    return a, "%s/%s" % (np.dtype(dt).name, lay)
+
+
+# ---------------------------------------------------------------------------------------------
+# histories on one live emitter + one live integrator (+ a re-used Spectrum)
+# ---------------------------------------------------------------------------------------------
+def live_history(rng, impl, g0, nmax, exact, mask_checks, fails, stats):
+    """One material object and one integrator object are used for a whole sequence: integrate, change the mask / the voxel
+    map (any dtype / layout; also to the same value), change step / min_samples through the setters, try rejected values
+    (the state must stay as it was), integrate again with the same Spectrum object...  Every integrate() becomes an ordinary
+    correspondence case (model fed the configuration current at that step) and is compared, in the search, with objects
+    built afresh from that configuration.  Returns a list of grid entries (one per integrate call)."""
+    kind, shape = g0["kind"], tuple(g0["shape"])
+    ncells = shape[0] * shape[1] * shape[2]
+    cellmin = min(g0["steps"]) if kind == "cart" else min(g0["dr"], g0["dz"])
+    mk, vm, mask = gen_map(rng, ncells)
+    mat = impl.material(g0, vm=vm, mask=mask)          # configured through the constructor
+    integ = impl.integrator(kind, rng.uniform(0.1, 0.6) * cellmin, 2)
+    entries, sp, forms = [], None, {}
+    ops = ["mask", "voxel_map", "same", "step", "min_samples", "reject", "none"]
+    for it in range(rng.randint(4, 7)):
+        op = rng.choice(ops) if it else "none"
+        before = np.array(mat.voxel_map).copy()
+        before_cfg = (int(mat.bins), integ.step, integ.min_samples)
+        rejected = None
+        if op == "mask":
+            if rng.random() < 0.2:
+                mat.mask = None
+                m = [True] * ncells
+            else:
+                m = [rng.random() < 0.6 for _ in range(ncells)]
+                m[rng.randrange(ncells)] = True
+                a, form = variant_form(rng, np.array(m, dtype=bool).reshape(shape), "mask")
+                forms[form] = forms.get(form, 0) + 1
+                mat.mask = a
+            mask_checks.append("b2z (check_mask [%s] %s %s)" % ("; ".join("true" if b else "false" for b in m),
+                                                                  zlist([int(v) for v in np.asarray(mat.voxel_map).ravel()]), zlit(mat.bins)))
+        elif op == "voxel_map":
+            B = rng.randint(1, max(1, ncells // 2))
+            v = [rng.randint(-1, B - 1) for _ in range(ncells)]
+            v[rng.randrange(ncells)] = B - 1
+            a, form = variant_form(rng, np.array(v).reshape(shape), "voxel_map")
+            forms[form] = forms.get(form, 0) + 1
+            mat.voxel_map = a
+            if [int(x) for x in np.asarray(mat.voxel_map).ravel()] != v or mat.bins != B:
+                fails.append({"claim": "voxel_map setter: the object holds the map it was given (any integer-valued dtype / layout) and "
+                                       "bins = max + 1", "given": v, "form": form, "held": np.asarray(mat.voxel_map).ravel().tolist(),
+                              "bins": int(mat.bins)})
+        elif op == "same":
+            if rng.random() < 0.5:
+                mat.voxel_map = mat.voxel_map
+            else:
+                integ.step = integ.step
+                integ.min_samples = integ.min_samples
+        elif op == "step":
+            integ.step = rng.uniform(0.05, 0.9) * cellmin
+        elif op == "min_samples":
+            integ.min_samples = rng.choice([2, 3, 7, 20])
+        elif op == "reject":
+            what = rng.choice(["step=0", "step<0", "min_samples=1", "mask-shape", "voxel_map-shape", "voxel_map-Fortran"])
+            try:
+                if what == "step=0":
+                    integ.step = 0.0
+                elif what == "step<0":
+                    integ.step = -integ.step
+                elif what == "min_samples=1":
+                    integ.min_samples = 1
+                elif what == "mask-shape":
+                    mat.mask = np.ones((shape[0] + 1, shape[1], shape[2]), dtype=bool)
+                elif what == "voxel_map-shape":
+                    mat.voxel_map = np.zeros((shape[0], shape[1] + 1, shape[2]), dtype=np.int32)
+                else:
+                    v = np.array([rng.randint(-1, 1) for _ in range(ncells)], dtype=np.int32).reshape(shape)
+                    v.flat[0] = 1
+                    f = np.asfortranarray(v)
+                    if f.flags["C_CONTIGUOUS"]:
+                        raise ValueError("layouts coincide")
+                    mat.voxel_map = f
+                rejected = (what, None)
+            except ValueError as exc:
+                rejected = (what, "ValueError")
+            stats["rejected_updates"] = stats.get("rejected_updates", 0) + 1
+            if rejected[1] is None and what != "voxel_map-Fortran":
+                fails.append({"claim": "an invalid value (%s) is rejected with ValueError" % what, "grid": {k: g0[k] for k in ("kind", "shape")}})
+            if rejected[1] is not None:
+                after = np.array(mat.voxel_map)
+                if after.shape != before.shape or not np.array_equal(after, before) or \
+                        (int(mat.bins), integ.step, integ.min_samples) != before_cfg:
+                    fails.append({"claim": "a rejected assignment (%s) leaves the object as it was: the voxel_map / mask it reports are "
+                                           "the ones it integrates with" % what,
+                                  "key": "c10:rejected-%s-stale-state" % what,
+                                  "grid": {k: v for k, v in g0.items() if k not in ("cases", "traces")},
+                                  "map_before": before.ravel().tolist(), "map_reported_after": after.ravel().tolist(),
+                                  "bins_before": before_cfg[0], "bins_after": int(mat.bins),
+                                  "how": "material.voxel_map = np.asfortranarray(<valid map>) raises ValueError('ndarray is not "
+                                         "C-contiguous') after self._voxel_map was already replaced; voxel_map_mv and _bins keep the old map"})
+                    mat.voxel_map = np.ascontiguousarray(before)      # re-synchronise and go on
+        # ---- integrate with the live objects ----
+        bins = int(mat.bins)
+        g = dict(g0, vm=[int(x) for x in np.asarray(mat.voxel_map).ravel()], map_kind="live-history", exact=exact, bins=bins, cases=[])
+        if sp is None or len(sp.samples) != bins or rng.random() < 0.3:
+            sp = impl.Spectrum(500., 501., bins)
+            if rng.random() < 0.5:
+                sp.samples[:] = [dyadic(rng, 0, 4, 6) for _ in range(bins)]
+        for _ in range(rng.randint(1, 2)):
+            cls, p0, p1, designed = (gen_ray_cart if kind == "cart" else gen_ray_cyl)(rng, g0, exact)
+            if cls == "short":
+                d = [rng.uniform(-1, 1) for _ in range(3)]
+                nd = math.sqrt(sum(x * x for x in d))
+                p1 = [p0[i] + d[i] / nd * rng.choice([0.02, 0.3, 1.5]) * integ.step for i in range(3)]
+            length = impl.length(IDENT12, p0, p1)
+            if length <= 0 or length / integ.step > nmax:
+                continue
+            c = finish_case(rng, impl, g0, mat, "live/" + cls, "identity", IDENT12, p0, p1, integ.step, integ.min_samples, integ=integ, sp=sp)
+            if c is None:
+                continue
+            c["live_op"] = op if rejected is None else "reject:" + rejected[0]
+            g["cases"].append(c)
+            if c["err"]:
+                sp = None
+                break
+        if g["cases"]:
+            entries.append(g)
+    lf = stats.setdefault("live_forms", {})
+    for k, v in forms.items():
+        lf[k] = lf.get(k, 0) + v
+    return entries
+
+
+def emission_cases(rng, impl, g, material, exact):
+    """emission_function(point) of the emitters (the entry point every other volume integrator uses)"""
+    kind = g["kind"]
+    lines = []
+    bins = int(material.bins)
+    for _ in range(3):
+        if kind == "cart":
+            p = [coord(rng, 0.0, g["ext"][a] * (1 - 2 ** -9), exact) for a in range(3)]
+            if rng.random() < 0.4:
+                a = rng.randrange(3)
+                p[a] = rng.randrange(g["shape"][a] + 1) * g["steps"][a] * rng.choice([1.0, 1.0, -1.0])
+        else:
+            rr = rng.uniform(g["rmin"], g["rmax"]) if rng.random() < 0.6 else g["rmin"] + rng.randrange(g["shape"][0] + 1) * g["dr"]
+            ph = math.radians(rng.choice([rng.uniform(-180, 180), rng.randrange(-12, 13) * 15.0]))
+            p = [rr * math.cos(ph), rr * math.sin(ph), rng.uniform(0, g["zmax"]) if rng.random() < 0.7 else rng.randrange(g["shape"][2] + 1) * g["dz"]]
+        init = [dyadic(rng, 0, 4, 4) for _ in range(bins)]
+        out, err = impl.emission(material, p, init)
+        head = grid_coq(g).replace("check_cart", "check_emission_cart").replace("check_cyl", "check_emission_cyl")
+        lines.append("%s %s %s %s %s %s" % (head, zlist(g["vm"]), vlit(p), qlist(init), qlist(out), zlit(err)))
+    return lines
 
 
 def grid_coq(g):
@@ -404,12 +678,12 @@ def traced_cases(rng, impl, n_objects, rays_per, nmax):
     objs = []
     for oi in range(n_objects):
         kind = "cart" if oi % 2 == 0 else "cyl"
-        g = gen_grid(rng, kind, rng.random() < 0.5, False)
+        g = gen_grid(rng, kind, rng.random() < 0.5, False, 8)
         ncells = g["shape"][0] * g["shape"][1] * g["shape"][2]
         mk, vm, mask = gen_map(rng, ncells)
         vm3 = None if vm is None else np.array(vm, dtype=np.int32).reshape(g["shape"])
         mask3 = None if mask is None else np.array(mask, dtype=bool).reshape(g["shape"])
-        tr = gen_transform(rng, rng.choice(["identity", "translate", "general"])).inverse()
+        tr = gen_transform(rng, rng.choice(["identity", "translate", "general"]), g.get("scale", 1.0)).inverse()
         world = World()
         cellmin = min(g["steps"]) if kind == "cart" else min(g["dr"], g["dz"])
         step = rng.uniform(0.08, 0.6) * cellmin
@@ -527,7 +801,7 @@ def run(ctx):
     n_corpus = len(grids)
 
     # ---- direct calls of the cpdef integrators --------------------------------------------------
-    mask_checks = []
+    mask_checks, emission_lines, pre_fails, arg_forms, live_stats = [], [], [], {}, {}
     rejected = 0
     for gi in range(n_grids):
         kind = "cart" if gi % 2 == 0 else "cyl"
@@ -535,9 +809,21 @@ def run(ctx):
         g = gen_grid(rng, kind, exact, not quick)
         ncells = g["shape"][0] * g["shape"][1] * g["shape"][2]
         mk, vm, mask = gen_map(rng, ncells)
-        mat = impl.material(g, vm=vm, mask=mask)
+        # the mask / voxel map is handed over in an arbitrary accepted dtype / memory layout (half of the grids)
+        form = "canonical"
+        vm_arg, mask_arg = vm, mask
+        if rng.random() < 0.5:
+            if vm is not None:
+                vm_arg, form = variant_form(rng, np.array(vm).reshape(g["shape"]), "voxel_map")
+            elif mask is not None:
+                mask_arg, form = variant_form(rng, np.array(mask, dtype=bool).reshape(g["shape"]), "mask")
+        np_args = rng.random() < 0.3
+        arg_forms[form + ("+numpy-scalars" if np_args else "")] = arg_forms.get(form + ("+numpy-scalars" if np_args else ""), 0) + 1
+        mat = impl.material(g, vm=vm_arg, mask=mask_arg, np_args=np_args)
         g["vm"] = [int(v) for v in np.asarray(mat.voxel_map).ravel()]
         g["map_kind"], g["exact"], g["bins"] = mk, exact, int(mat.bins)
+        if vm is not None and g["vm"] != [int(v) for v in vm]:
+            pre_fails.append({"claim": "the emitter holds the voxel map it was given (dtype / layout: %s)" % form, "given": vm, "held": g["vm"]})
         if mask is not None:
             mask_checks.append("b2z (check_mask [%s] %s %s)" % ("; ".join("true" if b else "false" for b in mask),
                                                                   zlist(g["vm"]), zlit(mat.bins)))
@@ -554,7 +840,14 @@ def run(ctx):
                 rejected += 1
                 continue
             g["cases"].append(c)
+        if gi % 2 == 0 or not quick:
+            g["cases"] += boundary_cases(rng, impl, g, mat, nmax, exact)
+        emission_lines += emission_cases(rng, impl, g, mat, exact)
         grids.append(g)
+    # ---- histories on one live emitter + integrator (+ re-used spectrum) ------------------------------
+    for li in range(8 if quick else 80):
+        g0 = gen_grid(rng, "cart" if li % 2 == 0 else "cyl", rng.random() < 0.7, False)
+        grids += live_history(rng, impl, g0, nmax, g0["scale"] != 1.0 or rng.random() < 0.7, mask_checks, pre_fails, live_stats)
     # ---- calls made by the ray tracer through RayTransferBox / RayTransferCylinder ------------------
     traced = traced_cases(rng, impl, 8 if quick else 60, 6 if quick else 12, nmax)
     grids += traced
@@ -604,8 +897,9 @@ def run(ctx):
         name = "vm%d" % gi
         cur_defs.append("Definition %s : list Z := %s." % (name, zlist(g["vm"])))
         for ci, c in enumerate(g["cases"]):
-            cur_cases.append(case_coq(g, name, c))
-            cur_ids.append(len(flat))
+            if not c.get("coq_skip"):      # decided by rounding: search only
+                cur_cases.append(case_coq(g, name, c))
+                cur_ids.append(len(flat))
             flat.append((gi, ci))
         if len(cur_cases) >= per_file:
             files.append((cur_defs, cur_cases, cur_ids))
@@ -624,7 +918,7 @@ def run(ctx):
         hist = S.gen_pipeline_history(rng, dim)
         pipe_hist.append((dim, hist, S.drive_pipeline_api(dim, hist)))
     pipe_cases = [pipe_case_coq(dim, hist, outs) for dim, hist, outs in pipe_hist]
-    aux_all = mask_checks + phi_cases + chord_cases + pipe_cases
+    aux_all = mask_checks + phi_cases + chord_cases + pipe_cases + emission_lines
     aux_paths = []
     for ai in range(0, len(aux_all), 400):
         aux_paths.append(ctx.write_gen("maps_phi_%03d.v" % (ai // 400), HEADER + "Definition results : list Z := [\n  "
@@ -665,7 +959,8 @@ def run(ctx):
     good = good and len(zs) == len(aux_all)
     bad_aux = [i for i, z in enumerate(zs) if z == 0]
     ctx.obligation("correspondence maps_phi_*.v (%d mask/voxel-map setters, %d angular-formula points, %d exact Cartesian chords, "
-                   "%d pipeline histories)" % (len(mask_checks), len(phi_cases), len(chord_cases), len(pipe_cases)),
+                   "%d pipeline histories, %d emission_function points)" % (len(mask_checks), len(phi_cases), len(chord_cases),
+                                                                             len(pipe_cases), len(emission_lines)),
                    "correspondence", good and not bad_aux,
                    out[-1500:] if not good else "DISAGREE at %s" % bad_aux)
     n_calls = len(flat)
@@ -673,8 +968,10 @@ def run(ctx):
             % (n_calls, len(paths), sum(len(g["cases"]) for g in traced), len(diff), len(mask_checks), len(phi_cases), len(bad_aux)))
 
     # ---- failing-input search: the property itself on the implementation ---------------------------
-    fails = []
+    fails = list(pre_fails)
     stats = {"rays": 0, "cells_compared": 0, "periodic": 0, "merged": 0, "traced_rays": 0}
+    stats.update(live_stats)
+    stats["argument_forms"] = arg_forms
     order = sorted(range(n_calls), key=lambda i: (0 if i in set(diff) else 1, i))
     budget = len(order) if quick else min(len(order), 4000)
     for i in order[:budget]:
@@ -694,26 +991,28 @@ def run(ctx):
     # angular periods / sector sizes outside the model's table (search only)
     fails += S.search_other_periods(impl, rng, 20 if quick else 200, stats)
     # pipelines.py: matrix of a sight line = entries of its (single) ray
+    fails += S.search_second_order(impl, rng, 6 if quick else 40, stats, lambda r, k, e, b: gen_grid(r, k, e, b, 8))
     fails += S.search_pipeline_api(pipe_hist, stats)
-    fails += S.search_pipeline_histories(impl, rng, 6 if quick else 40, stats, gen_grid)
+    fails += S.search_pipeline_histories(impl, rng, 6 if quick else 40, stats, lambda r, k, e, b: gen_grid(r, k, e, b, 8))
     for i in bad_aux:
         if len(mask_checks) + len(phi_cases) <= i < len(mask_checks) + len(phi_cases) + len(chord_cases):
             ctx.broken.append("model chord_cart differs from the harness's exact cut: " + chord_cases[i - len(mask_checks) - len(phi_cases)][:400])
         if i < len(mask_checks):
             fails.append({"claim": "mask / voxel_map setter: voxel_map = running index of the active cells (C order), "
                                    "-1 elsewhere, bins = max + 1", "check": mask_checks[i][:300]})
+    unknown_fails = [f for f in fails if (f.get("key") or "c10:" + f["claim"][:60]) not in ctx.known]
     ctx.obligation("executable property on the implementation (%d rays, %d cell entries, %d periodic, %d merged, %d traced, %d pipeline)"
                    % (stats["rays"], stats["cells_compared"], stats["periodic"], stats["merged"], stats["traced_rays"],
                       stats.get("pipeline_observations", 0) + stats.get("pipeline_api_observations", 0)),
-                   "search", not fails, str(fails[:2])[:1500])
+                   "search", not unknown_fails, str(unknown_fails[:2])[:1500])
     seen = set()
     for f in fails:
-        key = "c10:" + f["claim"][:60]
+        key = f.get("key") or "c10:" + f["claim"][:60]
         if key in seen:
             continue
         seen.add(key)
         ctx.violation(key, f["claim"], f, found=True)
-    if (diff or bad_aux) and not fails:
+    if (diff or bad_aux) and not unknown_fails:
         for i in diff[:3]:
             gi, ci = flat[i]
             g = {k: v for k, v in grids[gi].items() if k not in ("cases", "traces")}
